@@ -3,4 +3,5 @@ import GraphSlam.Theory.GaussNewton
 import GraphSlam.Props.C07.Jacobians
 import GraphSlam.Props.E2E.Frame
 import GraphSlam.Props.Tie.GraphPy
+import GraphSlam.Props.E2E.FrameMixed
 /-! C07 — umbrella (`Theory.reparam_solves`, `chi2_reparam`: the change of variables for landmark increments). -/
